@@ -128,7 +128,7 @@ def clock_targets(track_notes, ts_ticks, caps):
 
 # ----------------------------------------------------------------------------- valid pieces
 
-def valid_piece(rng, cfg, stratum="A", nseg=(1, 3), nbars=(1, 3), max_notes=7):
+def valid_piece(rng, cfg, stratum="A", nseg=(1, 3), nbars=(1, 3), max_notes=7, only_sigs=None):
     """A piece meeting the tokeniser's input constraints for cfg.
     stratum A: whole-bar padded, every rest segment decomposes largest-step-first (the documented pipeline);
     stratum B: may be ragged and may need rest decompositions that are not largest-step-first."""
@@ -137,6 +137,8 @@ def valid_piece(rng, cfg, stratum="A", nseg=(1, 3), nbars=(1, 3), max_notes=7):
     for _attempt in range(50):
         lo_ts, hi_ts = cfg.get("tsr") or (2, 16)
         sigs = [s for s in SIGS_OK if lo_ts <= 8 * s[0] // s[1] <= hi_ts]
+        if only_sigs:
+            sigs = [s for s in sigs if s in only_sigs] or sigs
         bars, ts_ev, total = gen.bar_plan(rng, nseg=nseg, nbars=nbars, sigs=sigs)
         if not bars:
             continue
